@@ -190,11 +190,134 @@ func (fr *Frame) addrOnlyUses(v ssa.Value, depth int) bool {
 			if len(callee.FreeVars) > 0 {
 				return false
 			}
+			// the callee must not keep the pointer (syntactic check of its body; external callees are trusted)
+			for i, a := range u.Call.Args {
+				if a == v && retainsParam(callee, i, 0, map[*ssa.Function]bool{}) {
+					return false
+				}
+			}
 		default:
 			return false
 		}
 	}
 	return true
+}
+
+// retainsParam: may the callee store its i-th parameter (a pointer) somewhere that outlives the call, or return it?
+// Conservative syntactic analysis of the callee's SSA: the parameter may only be dereferenced, written through,
+// used to derive field / element addresses, kept in its own spill slot, or passed on to callees that satisfy the
+// same condition.
+func retainsParam(fn *ssa.Function, i int, depth int, seen map[*ssa.Function]bool) bool {
+	if fn == nil || len(fn.Blocks) == 0 {
+		return false // external: assumed contract (listed as trusted)
+	}
+	if depth > 4 || seen[fn] {
+		return true
+	}
+	seen[fn] = true
+	defer delete(seen, fn)
+	if i >= len(fn.Params) {
+		return true
+	}
+	aliases := map[ssa.Value]bool{fn.Params[i]: true}
+	spills := map[*ssa.Alloc]bool{}
+	changed := true
+	for changed {
+		changed = false
+		for _, b := range fn.Blocks {
+			for _, in := range b.Instrs {
+				switch x := in.(type) {
+				case *ssa.Store:
+					if aliases[x.Val] {
+						if al, ok := x.Addr.(*ssa.Alloc); ok && !al.Heap && !spills[al] {
+							spills[al] = true
+							changed = true
+						}
+					}
+				case *ssa.UnOp:
+					if al, ok := x.X.(*ssa.Alloc); ok && x.Op == token.MUL && spills[al] && !aliases[x] {
+						aliases[x] = true
+						changed = true
+					}
+				case *ssa.FieldAddr:
+					if aliases[x.X] && !aliases[x] {
+						aliases[x] = true
+						changed = true
+					}
+				case *ssa.IndexAddr:
+					if aliases[x.X] && !aliases[x] {
+						aliases[x] = true
+						changed = true
+					}
+				case *ssa.ChangeType:
+					if aliases[x.X] && !aliases[x] {
+						aliases[x] = true
+						changed = true
+					}
+				}
+			}
+		}
+	}
+	// a spill slot must only be loaded from and stored to
+	for al := range spills {
+		if refs := al.Referrers(); refs != nil {
+			for _, r := range *refs {
+				switch u := r.(type) {
+				case *ssa.Store:
+					if u.Addr != al {
+						return true
+					}
+				case *ssa.UnOp, *ssa.DebugRef:
+				default:
+					return true
+				}
+			}
+		}
+	}
+	for a := range aliases {
+		refs := a.Referrers()
+		if refs == nil {
+			continue
+		}
+		for _, r := range *refs {
+			switch u := r.(type) {
+			case *ssa.Store:
+				if u.Val == a {
+					if al, ok := u.Addr.(*ssa.Alloc); !ok || !spills[al] {
+						return true
+					}
+				}
+			case *ssa.UnOp:
+				if u.Op != token.MUL {
+					return true
+				}
+			case *ssa.FieldAddr, *ssa.IndexAddr, *ssa.DebugRef, *ssa.ChangeType:
+			case *ssa.BinOp:
+				// comparison with nil / another pointer
+			case *ssa.If:
+			case ssa.CallInstruction:
+				common := u.Common()
+				if common.Value == a {
+					return true
+				}
+				callee := common.StaticCallee()
+				if callee == nil {
+					if _, isB := common.Value.(*ssa.Builtin); isB {
+						return true
+					}
+					return true
+				}
+				for j, arg := range common.Args {
+					if arg == a && retainsParam(callee, j, depth+1, seen) {
+						return true
+					}
+				}
+			default:
+				return true
+			}
+		}
+	}
+	return false
 }
 
 // ---------------------------------------------------------------------------
